@@ -40,11 +40,12 @@ theorem C03_election_restriction (s s' : PSys) (i c : Nat) (h : applyEvent s (.g
         (lastTerm (s.nodes i).log = r.lastTerm ∧ (s.nodes i).log.length ≤ r.lastIdx)) := by
   simp only [applyEvent, ok] at h
   split at h
-  · rename_i hg
-    have := hg.2.2.2.2.2
-    simp only [List.any_eq_true, decide_eq_true_eq, Bool.and_eq_true] at this
-    obtain ⟨r, hr, h1⟩ := this
-    exact ⟨r, hr, h1.1, h1.2.1, (C03_upToDate_iff _ _ _).1 h1.2.2⟩
+  · rename_i r hr
+    split at h
+    · have hp := List.find?_some hr
+      simp only [decide_eq_true_eq] at hp
+      exact ⟨r, List.mem_of_find?_eq_some hr, hp.1, hp.2.1, (C03_upToDate_iff _ _ _).1 hp.2.2⟩
+    · cases h
   · cases h
 
 /-- a campaign advertises the candidate's true last (term, index) -/
@@ -67,11 +68,18 @@ theorem C03_candidate_log_frozen (s s' : PSys) (e : Event) (h : applyEvent s e =
     · split at h
       · split at h
         · rename_i m _ _
-          cases m <;> simp only [addReleased] at h <;> cases h <;>
-            (by_cases hj : j = i <;> simp [upd, hj])
+          cases m <;> simp only [addReleased] at h <;> cases h <;> (rfl)
         · cases h
       · cases h
-    · cases h
+    · split at h
+      · split at h
+        · split at h
+          · rename_i m _ _
+            cases m <;> simp only [addReleased] at h <;> cases h <;>
+              (by_cases hj : j = i <;> simp [upd, hj])
+          · cases h
+        · cases h
+      · cases h
   | persist i k =>
     simp only [applyEvent, ok] at h
     split at h
@@ -128,7 +136,14 @@ theorem C03_candidate_log_frozen (s s' : PSys) (e : Event) (h : applyEvent s e =
       · subst hj; rw [hg.2.2.2.2.2.2.2.2.2.2.1] at h1; cases h1
       · simp [upd, hj]
     · cases h
-  | bump i t | campaign i | grant i c | rdy i | crash i | win i cfg q | stepDown i | ackCommitted i
+  | grant i c =>
+    simp only [applyEvent, ok] at h
+    split at h
+    · split at h
+      · cases h; by_cases hj : j = i <;> simp [upd, hj]
+      · cases h
+    · cases h
+  | bump i t | campaign i | rdy i | crash i | win i cfg q | stepDown i | ackCommitted i | ackSelf i idx
   | commitLeader i c cfg q | commitApp i c m | commitHB i c m | commitClaim i m =>
     simp only [applyEvent, ok] at h
     split at h
